@@ -11,6 +11,7 @@ import numpy as np
 from vmon import core, gen, contracts
 from vmon import refmodel as rm
 
+ANCHORS = ['evo/core/geometry.py']
 LEVEL = "exploration"
 SHARDS = {"quick": 8, "thorough": 16}
 RULE = ("point-set pairs y = s0*R0*x + t0 + noise from seeded class generators (generic, planar, "
